@@ -323,3 +323,61 @@ def no_shared_state(env):
     env.holds(",".join(ALL_PROPS), "the frame scan saw the package's modules", nfiles > 40, "only %d files" % nfiles)
     env.assumptions.add("frame scan is syntactic: writes through aliases (x = self.table; x[k] = v) and through "
                         "setattr/vars()/__dict__ are not seen")
+
+
+@job("c20.units_consistency", ALL_PROPS)
+def units_consistency(env):
+    """one name, one physical dimension: across the components of the structures-only group (tube, wingbox, all load options)
+    and of the aerodynamic analysis point (incompressible, compressible, rotational) every variable name is declared either
+    with units of one dimension everywhere or without units everywhere.  A variable that loses its unit in one component
+    silently switches OpenMDAO's conversion off for whatever the user connects to it."""
+    import warnings
+    import openmdao.api as om
+    from openmdao.utils.units import simplify_unit, unit_conversion
+    from .. import gsx
+    acc = {}
+
+    def collect(p):
+        m = p.model
+        for io in ("input", "output"):
+            for a, meta in m._var_allprocs_abs2meta[io].items():
+                if a.startswith("_auto_ivc"):
+                    continue
+                comp, var = a.rsplit(".", 1)
+                acc.setdefault(var, {}).setdefault(meta["units"], set()).add(comp.rsplit(".", 1)[-1])
+    with warnings.catch_warnings():
+        warnings.simplefilter("ignore")
+        for model in ("tube", "wingbox"):
+            s = surface(name="wing", nx=2, ny=3, model=model, struct_weight_relief=True, distributed_fuel_weight=(model == "wingbox"), n_point_masses=1)
+            p = om.Problem(reports=False)
+            p.model.add_subsystem("wing", cls("structures.struct_groups.SpatialBeamAlone")(surface=s))
+            p.setup()
+            collect(p)
+        for comp in (False, True):
+            s = surface(name="wing", nx=2, ny=3)
+            t = surface(name="tail", nx=2, ny=3, symmetry=True, xshift=3.0)
+            p = om.Problem(reports=False)
+            gsx.aero_model([s, t], compressible=comp, rotational=True)(p.model)
+            p.setup()
+            collect(p)
+        # the coupled aerostructural point with its geometry groups (load and displacement transfer, performance)
+        from openaerostruct.integration.aerostruct_groups import AerostructGeometry, AerostructPoint
+        s = surface(name="wing", nx=2, ny=3, model="tube", struct_weight_relief=True, n_point_masses=1)
+        p = om.Problem(reports=False)
+        p.model.add_subsystem("wing", AerostructGeometry(surface=s))
+        p.model.add_subsystem("AS", AerostructPoint(surfaces=[s]))
+        p.setup()
+        collect(p)
+    bad = []
+    for var, d in sorted(acc.items()):
+        if None in d and len(d) > 1:
+            bad.append("%s: no units in %s, %s elsewhere" % (var, sorted(d[None])[:3], sorted(k for k in d if k)[:2]))
+            continue
+        us = [u for u in d if u]
+        for u in us[1:]:
+            try:
+                unit_conversion(us[0], u)
+            except Exception:
+                bad.append("%s: %s vs %s" % (var, us[0], u))
+    env.holds(",".join(ALL_PROPS), "every variable name carries units of one dimension wherever a component declares it", not bad, "; ".join(bad[:5]), static=False)
+    env.holds("C20", "the units scan saw the models' variables", len(acc) > 100, "%d names" % len(acc))
